@@ -122,6 +122,25 @@ fn vector(profile: &str) -> BoxedStrategy<Vector> {
                 }
             })
             .boxed(),
+        // candidates whose sum is slightly ABOVE one: validation rejects them on the pinned tree; if a
+        // weakened check lets one through, the counts below expose the target that can never be drawn
+        "over_one" => (targets(), select(vec![1.0e-7f32, 2.0e-7, 1.0e-6, 8.0e-6, 1.0e-5, 1.0e-4, 1.0e-3, 0.01]), proptest::collection::vec(1u32..=1000, 6))
+            .prop_map(|(ts, extra, ws)| {
+                let k = ts.len().max(2);
+                let mut ts = ts;
+                while ts.len() < k {
+                    ts.push(if ts.contains(&1) { 2 } else { 1 });
+                }
+                // k-1 targets share exactly one (dyadic), the last one gets the excess
+                let mut ps = probs_from_weights(&ws[..k - 1], 0);
+                let sum: f32 = ps.iter().sum();
+                if sum < 1.0 {
+                    ps[0] += 1.0 - sum;
+                }
+                ps.push(extra);
+                Vector { trans: ts.into_iter().zip(ps).map(|(t, p)| (t, Fs(p))).collect() }
+            })
+            .boxed(),
         // values at the resolution limits of f32 and of the draw
         "edges" => (targets(), proptest::collection::vec(select(vec![
             f32::from_bits(1),
@@ -227,8 +246,8 @@ impl Prop for C06 {
 
     fn profiles(tier: Tier) -> Vec<Profile> {
         match tier {
-            Tier::Quick => vec![prof("dyadic", 500), prof("near_one", 400), prof("edges", 400), prof("random", 500)],
-            Tier::Thorough => vec![prof("dyadic", 8_000), prof("near_one", 6_000), prof("edges", 6_000), prof("random", 8_000)],
+            Tier::Quick => vec![prof("dyadic", 500), prof("near_one", 400), prof("over_one", 300), prof("edges", 400), prof("random", 500)],
+            Tier::Thorough => vec![prof("dyadic", 8_000), prof("near_one", 6_000), prof("over_one", 3_000), prof("edges", 6_000), prof("random", 8_000)],
         }
     }
 
@@ -411,7 +430,7 @@ impl Prop for C06 {
     }
 
     fn required_classes() -> Vec<&'static str> {
-        vec!["dyadic_exact", "non_dyadic_tolerance", "sum_exactly_one", "pseudo_state_target"]
+        vec!["dyadic_exact", "non_dyadic_tolerance", "sum_exactly_one", "pseudo_state_target", "vector_rejected_by_validation"]
     }
 
     fn assumptions() -> Vec<&'static str> {
